@@ -36,18 +36,17 @@ theorem pivot_formula (T : Transc K) (l : List (K × K))
   rfl
 
 theorem barlam_formula (T : Transc K) (l : List (K × K))
-    (hn : trapz (l.map fun p => (p.1, p.2 * T.ln p.1 / p.1)) ≠ 0)
     (hd : trapz (l.map fun p => (p.1, p.2 / p.1)) ≠ 0) :
-    barlam T l = T.exp |trapz (l.map fun p => (p.1, p.2 * T.ln p.1 / p.1)) /
-                          trapz (l.map fun p => (p.1, p.2 / p.1))| := by
-  have hn' : integ (fun p => p.2 * T.ln p.1 / p.1) l ≠ 0 := hn
+    barlam T l = T.exp (trapz (l.map fun p => (p.1, p.2 * T.ln p.1 / p.1)) /
+                          trapz (l.map fun p => (p.1, p.2 / p.1))) := by
   have hd' : integ (fun p => p.2 / p.1) l ≠ 0 := hd
-  have : ¬ (integ (fun p => p.2 * T.ln p.1 / p.1) l = 0 ∨ integ (fun p => p.2 / p.1) l = 0) := by
-    rintro (h | h)
-    · exact hn' h
-    · exact hd' h
-  simp only [barlam, if_neg this]
+  simp only [barlam, if_neg hd']
   rfl
+
+theorem barlam_degenerate (T : Transc K) (l : List (K × K))
+    (hd : trapz (l.map fun p => (p.1, p.2 / p.1)) = 0) : barlam T l = 0 := by
+  have hd' : integ (fun p => p.2 / p.1) l = 0 := hd
+  simp only [barlam, if_pos hd']
 
 theorem unit_response_formula (hc area : K) (l : List (K × K))
     (h : area * |trapz (l.map fun p => (p.1, p.2 * p.1))| ≠ 0) :
@@ -180,19 +179,10 @@ theorem pivot_scale (T : Transc K) (k : K) (hk : 0 < k) (l : List (K × K)) :
 theorem barlam_scale (T : Transc K) (k : K) (hk : 0 < k) (l : List (K × K)) :
     barlam T (scaleY k l) = barlam T l := by
   simp only [barlam, scale_ylnx, scale_yox]
-  set n := integ (fun p => p.2 * T.ln p.1 / p.1) l
-  set d := integ (fun p => p.2 / p.1) l
-  by_cases h : n = 0 ∨ d = 0
-  · have : k * n = 0 ∨ k * d = 0 := by
-      rcases h with h | h
-      · left; rw [h, mul_zero]
-      · right; rw [h, mul_zero]
-    rw [if_pos h, if_pos this]
-  · have : ¬ (k * n = 0 ∨ k * d = 0) := by
-      rintro (h' | h')
-      · exact h (Or.inl ((mul_eq_zero.mp h').resolve_left hk.ne'))
-      · exact h (Or.inr ((mul_eq_zero.mp h').resolve_left hk.ne'))
-    rw [if_neg h, if_neg this, mul_div_mul_left _ _ hk.ne']
+  by_cases hd : integ (fun p => p.2 / p.1) l = 0
+  · simp [hd]
+  · have : k * integ (fun p => p.2 / p.1) l ≠ 0 := mul_ne_zero hk.ne' hd
+    simp only [if_neg hd, if_neg this, mul_div_mul_left _ _ hk.ne']
 
 /-- the threshold mask of the scaled bandpass at the scaled threshold -/
 theorem mask_scale (k : K) (hk : 0 < k) (thr : Option K) (l : List (K × K)) :
@@ -526,36 +516,22 @@ theorem barlam_ratio_bounds (T : Transc K) (hT : T.Lawful) (h : Admissible m M l
   rw [hc] at hb
   exact ⟨(le_div_iff₀ hd).mpr hb.1, (div_le_iff₀ hd).mpr hb.2⟩
 
-/-- above 1 Angstrom the mean-log wavelength is `exp` of the plain ratio (guard and `abs` inert) -/
-theorem barlam_eq_exp_ratio (T : Transc K) (hT : T.Lawful) (h : Admissible m M l) (hm : 1 < m) :
+/-- for an admissible bandpass the mean-log wavelength is `exp` of the ratio (guard inert) -/
+theorem barlam_eq_exp_ratio (T : Transc K) (h : Admissible m M l) (hm : 0 < m) :
     barlam T l = T.exp (integ (fun p => p.2 * T.ln p.1 / p.1) l / integ (fun p => p.2 / p.1) l) := by
-  have hm0 : (0 : K) < m := lt_trans one_pos hm
-  have hd := h.den_yox_pos hm0
-  have hr := (barlam_ratio_bounds T hT h hm0).1
-  have hpos : 0 < integ (fun p => p.2 * T.ln p.1 / p.1) l / integ (fun p => p.2 / p.1) l :=
-    lt_of_lt_of_le (ln_pos hT hm) hr
-  have hn : integ (fun p => p.2 * T.ln p.1 / p.1) l ≠ 0 := by
-    intro h0; rw [h0, zero_div] at hpos; exact lt_irrefl _ hpos
-  have : ¬ (integ (fun p => p.2 * T.ln p.1 / p.1) l = 0 ∨ integ (fun p => p.2 / p.1) l = 0) := by
-    rintro (h' | h')
-    · exact hn h'
-    · exact hd.ne' h'
-  simp only [barlam, if_neg this]
-  rw [abs_of_pos hpos]
+  simp only [barlam, if_neg (h.den_yox_pos hm).ne']
 
-/-- the mean-log wavelength lies in the sampled range — for bandpasses above 1 Angstrom; below,
-the `abs` in `exp(abs(num/den))` and the `num == 0` guard make it false (see §7) -/
-theorem barlam_in_range_partial (T : Transc K) (hT : T.Lawful) (h : Admissible m M l) (hm : 1 < m) :
+/-- the mean-log wavelength lies in the sampled range -/
+theorem barlam_in_range (T : Transc K) (hT : T.Lawful) (h : Admissible m M l) (hm : 0 < m) :
     m ≤ barlam T l ∧ barlam T l ≤ M := by
-  have hm0 : (0 : K) < m := lt_trans one_pos hm
-  rw [barlam_eq_exp_ratio T hT h hm]
-  obtain ⟨h1, h2⟩ := barlam_ratio_bounds T hT h hm0
+  rw [barlam_eq_exp_ratio T h hm]
+  obtain ⟨h1, h2⟩ := barlam_ratio_bounds T hT h hm
   have hM : 0 < M := by
     obtain ⟨p, hp, _⟩ := h.somepos
-    exact lt_of_lt_of_le (h.xpos hm0 p hp) (h.hi p hp)
+    exact lt_of_lt_of_le (h.xpos hm p hp) (h.hi p hp)
   constructor
   · have := exp_mono hT h1
-    rwa [hT.exp_ln m hm0] at this
+    rwa [hT.exp_ln m hm] at this
   · have := exp_mono hT h2
     rwa [hT.exp_ln M hM] at this
 
@@ -653,113 +629,72 @@ theorem exp_meanlog_le_sqrt_ratio {m M : ℝ} {l : List (ℝ × ℝ)} (h : Admis
       rw [Real.sqrt_eq_iff_mul_self_eq hz.le (Real.exp_pos _).le, ← Real.exp_add]
       rw [add_halves, Real.exp_log hz]
 
-/-- mean-log wavelength ≤ pivot wavelength, over ℝ with the real functions, for bandpasses above
-1 Angstrom -/
-theorem barlam_le_pivot_partial {m M : ℝ} {l : List (ℝ × ℝ)} (h : Admissible m M l) (hm : 1 < m) :
+/-- mean-log wavelength ≤ pivot wavelength, over ℝ with the real functions -/
+theorem barlam_le_pivot {m M : ℝ} {l : List (ℝ × ℝ)} (h : Admissible m M l) (hm : 0 < m) :
     barlam Transc.real l ≤ pivot Transc.real l := by
-  have hm0 : (0 : ℝ) < m := lt_trans one_pos hm
-  rw [barlam_eq_exp_ratio Transc.real Transc.real_lawful h hm, pivot_eq_sqrt_ratio Transc.real h hm0]
+  rw [barlam_eq_exp_ratio Transc.real h hm, pivot_eq_sqrt_ratio Transc.real h hm]
   simp only [Transc.real_exp, Transc.real_sqrt, Transc.real_ln]
-  exact exp_meanlog_le_sqrt_ratio h hm0
+  exact exp_meanlog_le_sqrt_ratio h hm
 
-/-- the documented chain `barlam ≤ pivot ≤ avgwave` over ℝ, above 1 Angstrom -/
-theorem mean_wavelength_order_partial {m M : ℝ} {l : List (ℝ × ℝ)} (h : Admissible m M l) (hm : 1 < m) :
+/-- the documented chain `barlam ≤ pivot ≤ avgwave`, over ℝ -/
+theorem mean_wavelength_order {m M : ℝ} {l : List (ℝ × ℝ)} (h : Admissible m M l) (hm : 0 < m) :
     barlam Transc.real l ≤ pivot Transc.real l ∧ pivot Transc.real l ≤ avgwave l :=
-  ⟨barlam_le_pivot_partial h hm,
-   pivot_le_avgwave Transc.real Transc.real_lawful h (lt_trans one_pos hm)⟩
+  ⟨barlam_le_pivot h hm, pivot_le_avgwave Transc.real Transc.real_lawful h hm⟩
 
-/-! ### 7. where the claims about the mean-log wavelength fail on the current code
+/-! ### 7. AS-FOUND WITNESSES (about the old formula `barlamAsFound`, not about the model)
 
--- NOT PROVABLE ON CURRENT CODE (full statements):
---   theorem barlam_in_range (hT : T.Lawful) (h : Admissible m M l) (hm : 0 < m) :
---       m ≤ barlam T l ∧ barlam T l ≤ M
---   theorem barlam_le_pivot {l : List (ℝ × ℝ)} (h : Admissible m M l) (hm : 0 < m) :
---       barlam Transc.real l ≤ pivot Transc.real l
--- `barlam` computes `exp(abs(num/den))` and returns 0 when `num == 0`: the value is 0 or at
--- least 1 whatever the bandpass, so for wavelengths below 1 Angstrom (hard X-rays; synphot accepts
--- them, e.g. through keV inputs) it is outside the sampled range, and a bandpass whose weight sits
--- at exactly 1 Angstrom gets 0.  The documented formula has neither the `abs` nor the guard.
--/
+Before /repo commit ca9035f `barlam` computed `exp(abs(num/den))` and returned 0 when `num == 0`.
+These theorems record why the range and ordering claims were false of that code (wavelengths at or
+below 1 Angstrom) and that the repair changes nothing above 1 Angstrom. -/
 
-/-- whatever the samples, the coded mean-log wavelength is `0` or at least `1` -/
-theorem barlam_zero_or_ge_one (T : Transc K) (hT : T.Lawful) (l : List (K × K)) :
-    barlam T l = 0 ∨ 1 ≤ barlam T l := by
-  simp only [barlam]
+/-- whatever the samples, the as-found value is `0` or at least `1` -/
+theorem asFound_zero_or_ge_one (T : Transc K) (hT : T.Lawful) (l : List (K × K)) :
+    barlamAsFound T l = 0 ∨ 1 ≤ barlamAsFound T l := by
+  simp only [barlamAsFound]
   split_ifs with h
   · left; rfl
   · right
     have := exp_mono hT (abs_nonneg (integ (fun p => p.2 * T.ln p.1 / p.1) l / integ (fun p => p.2 / p.1) l))
     rwa [hT.exp_zero] at this
 
-/-- hence for every bandpass sampled below 1 Angstrom it lies outside the sampled range -/
-theorem barlam_out_of_range_below_one (T : Transc K) (hT : T.Lawful) {m M : K} {l : List (K × K)}
+/-- hence for every bandpass sampled below 1 Angstrom it lay outside the sampled range -/
+theorem asFound_out_of_range_below_one (T : Transc K) (hT : T.Lawful) {m M : K} {l : List (K × K)}
     (h : Admissible m M l) (hm : 0 < m) (hM : M < 1) :
-    ¬ (m ≤ barlam T l ∧ barlam T l ≤ M) := by
+    ¬ (m ≤ barlamAsFound T l ∧ barlamAsFound T l ≤ M) := by
   rintro ⟨h1, h2⟩
-  rcases barlam_zero_or_ge_one T hT l with h0 | h0
+  rcases asFound_zero_or_ge_one T hT l with h0 | h0
   · rw [h0] at h1; exact absurd hm (not_lt.mpr h1)
   · exact absurd (lt_of_le_of_lt (le_trans h0 h2) hM) (lt_irrefl _)
 
-/-- the `num == 0` guard: a bandpass on `[1, 2]` Angstrom whose mean-log wavelength is 1 gets 0 -/
-theorem barlam_guard_witness (T : Transc K) (hT : T.Lawful) :
-    barlam T [((1 : K), 1), (2, 0)] = 0 ∧ Admissible (1 : K) 2 [((1 : K), 1), (2, 0)] := by
+/-- the `num == 0` guard: a bandpass on `[1, 2]` Angstrom whose mean-log wavelength is 1 got 0 -/
+theorem asFound_guard_witness (T : Transc K) (hT : T.Lawful) :
+    barlamAsFound T [((1 : K), 1), (2, 0)] = 0 ∧ Admissible (1 : K) 2 [((1 : K), 1), (2, 0)] := by
   constructor
   · have : integ (fun p => p.2 * T.ln p.1 / p.1) [((1 : K), 1), (2, 0)] = 0 := by
       simp [integ_cons_cons, ln_one hT]
-    simp only [barlam, this, true_or, if_true]
+    simp only [barlamAsFound, this, true_or, if_true]
   · refine ⟨⟨by norm_num, trivial⟩, by simp, ?_, ?_, ?_, ⟨(1, 1), by simp, by norm_num⟩⟩
     · intro p hp; simp at hp; rcases hp with rfl | rfl <;> norm_num
     · intro p hp; simp at hp; rcases hp with rfl | rfl <;> norm_num
     · intro p hp; simp at hp; rcases hp with rfl | rfl <;> norm_num
 
-/-! ### 8. the documented formula (`barlamDoc`: the method after the pending patch) satisfies the
-claims at full strength, and agrees with the code above 1 Angstrom -/
-
-section Doc
-variable {m M : K} {l : List (K × K)}
-
-theorem barlamDoc_eq_exp_ratio (T : Transc K) (h : Admissible m M l) (hm : 0 < m) :
-    barlamDoc T l = T.exp (integ (fun p => p.2 * T.ln p.1 / p.1) l / integ (fun p => p.2 / p.1) l) := by
-  simp only [barlamDoc, if_neg (h.den_yox_pos hm).ne']
-
-theorem barlamDoc_in_range (T : Transc K) (hT : T.Lawful) (h : Admissible m M l) (hm : 0 < m) :
-    m ≤ barlamDoc T l ∧ barlamDoc T l ≤ M := by
-  rw [barlamDoc_eq_exp_ratio T h hm]
-  obtain ⟨h1, h2⟩ := barlam_ratio_bounds T hT h hm
-  have hM : 0 < M := by
-    obtain ⟨p, hp, _⟩ := h.somepos
-    exact lt_of_lt_of_le (h.xpos hm p hp) (h.hi p hp)
-  constructor
-  · have := exp_mono hT h1
-    rwa [hT.exp_ln m hm] at this
-  · have := exp_mono hT h2
-    rwa [hT.exp_ln M hM] at this
-
-/-- above 1 Angstrom the code computes the documented value -/
-theorem barlam_eq_barlamDoc (T : Transc K) (hT : T.Lawful) (h : Admissible m M l) (hm : 1 < m) :
-    barlam T l = barlamDoc T l := by
-  rw [barlam_eq_exp_ratio T hT h hm, barlamDoc_eq_exp_ratio T h (lt_trans one_pos hm)]
-
-theorem barlamDoc_scale (T : Transc K) (k : K) (hk : 0 < k) (l : List (K × K)) :
-    barlamDoc T (scaleY k l) = barlamDoc T l := by
-  simp only [barlamDoc, scale_ylnx, scale_yox]
-  by_cases hd : integ (fun p => p.2 / p.1) l = 0
-  · simp [hd]
-  · have : k * integ (fun p => p.2 / p.1) l ≠ 0 := mul_ne_zero hk.ne' hd
-    simp only [if_neg hd, if_neg this, mul_div_mul_left _ _ hk.ne']
-
-theorem barlamDoc_reverse (T : Transc K) (l : List (K × K)) : barlamDoc T l.reverse = barlamDoc T l := by
-  simp only [barlamDoc, integ_reverse, neg_eq_zero, neg_div_neg_eq]
-
-end Doc
-
-/-- documented mean-log ≤ pivot ≤ average wavelength for every admissible bandpass, over ℝ -/
-theorem barlamDoc_le_pivot_le_avgwave {m M : ℝ} {l : List (ℝ × ℝ)} (h : Admissible m M l) (hm : 0 < m) :
-    barlamDoc Transc.real l ≤ pivot Transc.real l ∧ pivot Transc.real l ≤ avgwave l := by
-  refine ⟨?_, pivot_le_avgwave Transc.real Transc.real_lawful h hm⟩
-  rw [barlamDoc_eq_exp_ratio Transc.real h hm, pivot_eq_sqrt_ratio Transc.real h hm]
-  simp only [Transc.real_exp, Transc.real_sqrt, Transc.real_ln]
-  exact exp_meanlog_le_sqrt_ratio h hm
+/-- above 1 Angstrom the as-found code computed the documented value: the repair is inert there -/
+theorem asFound_eq_barlam_above_one (T : Transc K) (hT : T.Lawful) {m M : K} {l : List (K × K)}
+    (h : Admissible m M l) (hm : 1 < m) : barlamAsFound T l = barlam T l := by
+  have hm0 : (0 : K) < m := lt_trans one_pos hm
+  rw [barlam_eq_exp_ratio T h hm0]
+  have hd := h.den_yox_pos hm0
+  have hr := (barlam_ratio_bounds T hT h hm0).1
+  have hpos : 0 < integ (fun p => p.2 * T.ln p.1 / p.1) l / integ (fun p => p.2 / p.1) l :=
+    lt_of_lt_of_le (ln_pos hT hm) hr
+  have hn : integ (fun p => p.2 * T.ln p.1 / p.1) l ≠ 0 := by
+    intro h0; rw [h0, zero_div] at hpos; exact lt_irrefl _ hpos
+  have : ¬ (integ (fun p => p.2 * T.ln p.1 / p.1) l = 0 ∨ integ (fun p => p.2 / p.1) l = 0) := by
+    rintro (h' | h')
+    · exact hn h'
+    · exact hd.ne' h'
+  simp only [barlamAsFound, if_neg this]
+  rw [abs_of_pos hpos]
 
 /-! ### non-vacuity -/
 
